@@ -196,6 +196,55 @@ theorem newVariable_total (name : Name) (pk : Bool) (fc : Scope) (parents : List
   simp only [h, if_false, if_true, hnm]
   cases pk <;> simp
 
+/-! ## Repaired defects (round 2)
+
+  (1) `needsSpace` knew only ASCII identifier characters, so the space in `continue Ünique;` was dropped
+      (fixes/C16-needsspace-nonascii.patch). The model now mirrors the repaired predicate; the theorems below say
+      what the repair buys and what was wrong before.
+  (2) `varPtrName` reused, in the second instantiation of a generic function, a pointer-variable name cached by the
+      first one without counting it in `allVars` (fixes/C16-varptr-per-context.patch). `names_distinct` needs that
+      EVERY name that enters `localVars` was handed out by `newVariable` in that context; histories now contain the
+      `ptr` operation (model of the repaired `varPtrName`) and `names_distinct` covers it. -/
+
+/-- every byte the JavaScript tokenizer takes for part of an identifier (incl. bytes >= 0x80) needs a separator -/
+theorem ident_needsSpace (c : Nat) (h : isIdentChar c = true) : needsSpace c = true := by
+  simp only [isIdentChar, Bool.or_eq_true] at h
+  simp only [needsSpace, Bool.or_eq_true]
+  rcases h with ((((h | h) | h) | h) | h) | h
+  · exact Or.inl (Or.inl (Or.inl (Or.inl (Or.inl (Or.inl h)))))
+  · exact Or.inl (Or.inl (Or.inl (Or.inl (Or.inl (Or.inr h)))))
+  · exact Or.inl (Or.inl (Or.inl (Or.inl (Or.inr h))))
+  · exact Or.inl (Or.inl (Or.inl (Or.inr h)))
+  · exact Or.inl (Or.inl (Or.inr h))
+  · exact Or.inr h
+
+/-- hence a whitespace byte between two identifier bytes is never dropped: two words (identifiers, keywords,
+    numbers) separated by whitespace cannot be merged, whatever bytes they are made of -/
+theorem ws_between_idents_kept (p n : Nat) (hp : isIdentChar p = true) (hn : isIdentChar n = true) :
+    wsDrop p (some n) = some false := by
+  have h1 := ident_needsSpace p hp
+  have h2 := ident_needsSpace n hn
+  simp [wsDrop, h1, h2]
+
+/-- the old predicate: `e` then space then the first byte of `Ü` (0xC3) — the space was dropped although both
+    bytes are identifier bytes, and the two words become one token (`continueÜnique`) -/
+theorem old_needsSpace_counterexample :
+    isIdentChar 195 = true ∧ needsSpaceOld 195 = false ∧
+    ((!needsSpaceOld 101 || !needsSpaceOld 195) && !(101 == 45 && 195 == 45)) = true ∧
+    tokensOf [.ch 101, .ch 195] ≠ tokensOf [.ch 101, .ws 32, .ch 195] := by decide
+
+/-- the old `varPtrName` path (append a foreign name to `localVars` without counting it) breaks the allocator
+    invariant immediately: the next `newVariable` may hand the same name out again -/
+theorem old_varptr_counterexample (nm : Name) (fc : Scope) (ps : List Scope) (h0 : fc.vars.cnt nm = 0) :
+    ¬ LC (oldReusePtr nm (fc :: ps)) :=
+  old_reuse_breaks nm fc ps h0
+
+/-- the repaired `varPtrName` keeps a name stable: asking again in the same context (or a nested one) returns the
+    recorded name and allocates nothing -/
+theorem varPtrName_cached (minify : Bool) (v : Nat) (name nm : Name) (chain : List Scope)
+    (h : lookupPtr v chain = some nm) : varPtrName minify v name false chain = some (chain, nm) := by
+  simp [varPtrName, h]
+
 /-- Not claimed: the corresponding statement with minification off (`name`, `name$1`, …) needs a side condition on the
     requested names (no Go identifier encodes to another one followed by `$<digits>`); it belongs to C01. -/
 def names_distinct_plain : Prop :=
